@@ -3,6 +3,7 @@
 package main
 
 import (
+	"sync/atomic"
 	"context"
 	"fmt"
 	"os"
@@ -30,6 +31,8 @@ type c02Workload struct {
 	// OthersOnly (quick tier): only the non-positional fault family (source
 	// changes, obstructed output paths) is generated for this workload
 	OthersOnly bool
+	// PairOnly: used only under the recvFinalizePair gate with late faults
+	PairOnly bool
 }
 
 type c02Case struct {
@@ -52,6 +55,18 @@ func c02Workloads() []*c02Workload {
 		mk("w1chunk", 1, 1, vk.Entry{Rel: "one.bin", Size: 10}),
 		mk("wzero", 3, 1, vk.Entry{Rel: "x.bin", Size: 20}, vk.Entry{Rel: "z.bin", Size: 0}),
 		mk("wmulti", 3, 2, vk.Entry{Rel: "m.bin", Size: 70}, vk.Entry{Rel: "n.bin", Size: 17}),
+		// many one-chunk files and one larger file that is sent last: many
+		// finalisations before the point at which the sender goes away
+		mk("wmany", 3, 1, append(func() []vk.Entry {
+			var es []vk.Entry
+			for i := 0; i < 60; i++ {
+				es = append(es, vk.Entry{Rel: fmt.Sprintf("s/%03d.bin", i), Size: 8})
+			}
+			return es
+		}(), vk.Entry{Rel: "large.bin", Size: 16 * 40})...),
+		// nothing but zero-length files: no chunk ever travels, every file is
+		// acknowledged on the strength of its FileBegin/FileEnd alone
+		mk("wzeros", 2, 1, vk.Entry{Rel: "e0.bin", Size: 0}, vk.Entry{Rel: "sub/e1.bin", Size: 0}),
 		// directories of every kind: with a file below, empty, empty below an otherwise empty parent
 		mk("wdirs", 2, 1, vk.Entry{Rel: "top.bin", Size: 20}, vk.Entry{Rel: "sub", Dir: true}, vk.Entry{Rel: "sub/f.bin", Size: 17},
 			vk.Entry{Rel: "logs", Dir: true}, vk.Entry{Rel: "d1", Dir: true}, vk.Entry{Rel: "d1/d2", Dir: true}),
@@ -106,6 +121,9 @@ type c02Outcome struct {
 	Setup    string
 	RecvOK   bool
 	SendOK   bool
+	// HangState (hangs only): per file, what the sender put on the wire, what
+	// the receiver acknowledged and what its sidecar records
+	HangState []string
 }
 
 func runC02Case(e *Env, lp *vk.ListenerPool, w *c02Workload, c c02Case) c02Outcome {
@@ -121,7 +139,7 @@ func runC02Case(e *Env, lp *vk.ListenerPool, w *c02Workload, c c02Case) c02Outco
 	_ = os.MkdirAll(outDir, 0755)
 	cfg := w.Cfg
 	var x *vk.Xfer
-	deco := &vk.Deco{Record: true}
+	deco := &vk.Deco{Record: true, RecordAll: true}
 	if c.Fault != nil {
 		f := *c.Fault
 		deco.Fault = &f
@@ -129,10 +147,12 @@ func runC02Case(e *Env, lp *vk.ListenerPool, w *c02Workload, c c02Case) c02Outco
 	}
 	cfg.SendDeco = deco
 	var keyOf = map[string]uint64{}
+	var idOf = map[string]string{}
 	cfg.EditManifest = func(m *manifest.Manifest) {
 		for _, it := range m.Items {
 			if !it.IsDir {
 				keyOf[it.RelPath] = transfer.VerifCoreFileKey(it)
+				idOf[it.RelPath] = it.ID
 			}
 		}
 	}
@@ -184,6 +204,64 @@ func runC02Case(e *Env, lp *vk.ListenerPool, w *c02Workload, c c02Case) c02Outco
 		}
 		out.Diff = vk.DiffDigest(vk.ExpectedDigest(w.Tree, res.Prefix), got)
 	}
+	if res.Hung {
+		frames := sentFrames(deco)
+		dones, _ := decodeFileDones(deco.Recorded(0, "r"))
+		ends := map[uint64]int{}
+		begins := map[uint64]int{}
+		ms := vk.NewMemStream(deco.Recorded(0, "w"))
+		if _, err := transfer.VerifCoreReadControlHeader(ms); err == nil {
+			for ms.Remaining() > 0 {
+				typ, msg, err := transfer.VerifCoreReadControlMessage(ms)
+				if err != nil {
+					break
+				}
+				switch typ {
+				case transfer.VerifTypeFileEnd:
+					ends[msg.(transfer.FileEnd).StreamID]++
+				case transfer.VerifTypeFileBegin:
+					begins[msg.(transfer.FileBegin).StreamID]++
+				}
+			}
+		}
+		loaded, _, _ := snapshotSidecars(outDir)
+		var rels []string
+		for rel := range keyOf {
+			rels = append(rels, rel)
+		}
+		sort.Strings(rels)
+		for _, rel := range rels {
+			k := keyOf[rel]
+			ok, seen := dones[k]
+			if seen && ok {
+				continue // acknowledged
+			}
+			var sent []uint64
+			for fk, n := range frames {
+				if fk[0] == k {
+					for j := 0; j < n; j++ {
+						sent = append(sent, fk[1])
+					}
+				}
+			}
+			sort.Slice(sent, func(i, j int) bool { return sent[i] < sent[j] })
+			st, _ := os.Stat(filepath.Join(outDir, filepath.FromSlash(rel)))
+			sz := int64(-1)
+			if st != nil {
+				sz = st.Size()
+			}
+			line := fmt.Sprintf("%s key=%x: FileBegin sent %dx, frames sent for chunks %v, FileEnd sent %dx, FileDone seen=%v ok=%v, output size %d", rel, k, begins[k], sent, ends[k], seen, ok, sz)
+			for _, sn := range loaded {
+				if sn.FileID == idOf[rel] {
+					line += fmt.Sprintf(", sidecar bits %v", sn.Bits)
+				}
+			}
+			out.HangState = append(out.HangState, line)
+		}
+	}
+	if dn, n := decodeFileDones(deco.Recorded(0, "r")); n > len(dn) {
+		e.R.Count("receiver_acknowledged_one_file_twice")
+	}
 	if out.SendOK {
 		dones, _ := decodeFileDones(deco.Recorded(0, "r"))
 		for rel, k := range keyOf {
@@ -234,7 +312,7 @@ func judgeC02(e *Env, o c02Outcome) {
 		return
 	}
 	if o.Res.Inconclusive != "" {
-		r.Inconcl(c.ID + ": " + o.Res.Inconclusive)
+		r.Inconcl(fmt.Sprintf("%s (%s, %s, gate %s): %s", c.ID, c.W, cls, c.Gate, o.Res.Inconclusive))
 		return
 	}
 	detail := map[string]any{"result": o.Res.Summary(), "fired": o.Fired, "diff": o.Diff, "unconfirmed": o.Unconf}
@@ -244,6 +322,7 @@ func judgeC02(e *Env, o c02Outcome) {
 			return
 		}
 		detail["goroutines"] = o.Res.HangDump
+		detail["unacknowledged_files_when_hung"] = o.HangState
 		who := "both"
 		if o.Res.SendStuck && !o.Res.RecvStuck {
 			who = "sender"
@@ -308,6 +387,46 @@ func installGate(g string) {
 		verifhook.Set("send.fileEnd.before", func(verifhook.Event) { time.Sleep(100 * time.Millisecond) })
 	case "recvFinalize150":
 		verifhook.Set("recv.finalize.before", func(verifhook.Event) { time.Sleep(150 * time.Millisecond) })
+	case "recvFinalizePair":
+		// a spinning barrier per file: the first caller that wants to finalise a
+		// file waits (running, up to 30 ms) for a second caller for the same
+		// file - the reader that stored the last chunk and the main loop that
+		// handles FileEnd - so that both enter the finalisation together
+		// (control records are held for a moment so that FileEnd is handled
+		// after the last chunk was stored, while its reader is at the barrier)
+		verifhook.Set("recv.main.control", func(verifhook.Event) { time.Sleep(1 * time.Millisecond) })
+		type rendezvous struct{ n atomic.Int32 }
+		var mu sync.Mutex
+		waiting := map[uint64]*rendezvous{}
+		var salt atomic.Uint64
+		verifhook.Set("recv.finalize.before", func(ev verifhook.Event) {
+			mu.Lock()
+			rv, second := waiting[ev.A]
+			if second {
+				delete(waiting, ev.A)
+			} else {
+				rv = &rendezvous{}
+				waiting[ev.A] = rv
+			}
+			mu.Unlock()
+			rv.n.Add(1)
+			t0 := time.Now()
+			for rv.n.Load() < 2 {
+				if !second && time.Since(t0) > 12*time.Millisecond {
+					mu.Lock()
+					if waiting[ev.A] == rv {
+						delete(waiting, ev.A)
+					}
+					mu.Unlock()
+					return
+				}
+			}
+			// both callers are running now; a few (0-63) more spins each sweep
+			// their relative phase over the instructions that follow
+			for k := vk.Mix(salt.Add(1)) % 64; k > 0; k-- {
+				_ = rv.n.Load()
+			}
+		})
 	}
 }
 
@@ -332,6 +451,24 @@ func runC02(e *Env) {
 				w.OthersOnly = true
 				wls = append(wls, w)
 			}
+			if w.Name == "wzeros" {
+				wls = append(wls, w)
+			}
+		}
+	}
+	for _, w := range c02Workloads() {
+		if w.Name == "wmany" {
+			found := false
+			for _, x := range wls {
+				if x.Name == w.Name {
+					x.PairOnly = true
+					found = true
+				}
+			}
+			if !found {
+				w.PairOnly = true
+				wls = append(wls, w)
+			}
 		}
 	}
 	r := vk.NewRng(e.Seed ^ vk.HashStr("c02"+e.Tier))
@@ -339,8 +476,12 @@ func runC02(e *Env) {
 	for _, w := range wls {
 		ok := 0
 		for k := 0; k < 4; k++ {
-			o := runC02Case(e, lp, w, c02Case{ID: "rec", W: w.Name})
+			o := runC02Case(e, lp, w, c02Case{ID: fmt.Sprintf("rec-%s-%d", w.Name, k), W: w.Name, Gate: "none", Other: "no-fault"})
 			if !o.RecvOK || !o.SendOK || len(o.Diff) > 0 {
+				// a fault-free run that does not end in double success is C03's
+				// subject, but a one-sided success is judged here like any other
+				e.R.Eval()
+				judgeC02(e, o)
 				continue
 			}
 			ok++
@@ -363,6 +504,9 @@ func runC02(e *Env) {
 				}
 			}
 		}
+		if (ok == 0 || len(w.Stats) == 0) && len(e.R.Violations) > 0 {
+			return // the fault-free runs were already judged (one-sided success)
+		}
 		if ok == 0 || len(w.Stats) == 0 {
 			e.R.Inconcl("recording run of workload " + w.Name + " did not succeed")
 			e.R.Require(false, "recording run failed for "+w.Name)
@@ -384,6 +528,21 @@ func runC02(e *Env) {
 	seed0 := int64(r.Intn(int(step)))
 	for _, w := range wls {
 		byName[w.Name] = w
+		if w.PairOnly {
+			// the sender goes away (gracefully / by cancellation) while the
+			// last, larger file is in flight, after many files were finalised
+			// by two callers at once
+			for si := 1; si < len(w.Stats); si++ {
+				n := w.Stats[si].W
+				for rep := 0; rep < e.Pick(3, 10); rep++ {
+					for _, kind := range []string{"close-sender", "cancel-sender"} {
+						off := n - 1 - int64(r.Intn(int(n/6)+1))
+						add(c02Case{W: w.Name, Gate: "recvFinalizePair", Fault: &vk.Fault{Stream: si, Dir: "w", Offset: off, Kind: kind}, Rep: rep})
+					}
+				}
+			}
+			continue
+		}
 		stats := w.Stats
 		if w.OthersOnly {
 			stats = nil
@@ -450,14 +609,14 @@ func runC02(e *Env) {
 	}
 	// gated repetitions of the racing configurations
 	base := len(cases)
-	gates := []string{"recvDone250", "recvControl80", "sendFileEnd100", "recvFinalize150"}
+	gates := []string{"recvDone250", "recvControl80", "sendFileEnd100", "recvFinalize150", "recvFinalizePair"}
 	reps := e.Pick(2, 6)
 	gstep := e.Pick(4, 1)
 	for gi, g := range gates {
 		k := 0
 		for i := 0; i < base; i++ {
 			c := cases[i]
-			if c.Fault == nil {
+			if c.Fault == nil || byName[c.W].PairOnly {
 				continue
 			}
 			racing := c.Fault.Kind == "frameflip" || ((c.Fault.Kind == "close-sender" || c.Fault.Kind == "abort-sender" || c.Fault.Kind == "cancel-sender") && (c.Fault.Stream >= 1 || c.Fault.Offset > 200))
@@ -465,10 +624,17 @@ func runC02(e *Env) {
 				continue
 			}
 			k++
-			if (k+gi)%gstep != 0 {
+			if g == "recvFinalizePair" {
+				// only a peer that goes away gracefully lets a receiver with a
+				// wrong completed-files count return nil: all such positions
+				if c.Fault.Kind != "close-sender" && c.Fault.Kind != "cancel-sender" {
+					continue
+				}
+			} else if (k+gi)%gstep != 0 {
 				continue
 			}
-			for rep := 0; rep < reps; rep++ {
+			nrep := reps
+			for rep := 0; rep < nrep; rep++ {
 				f := *c.Fault
 				add(c02Case{W: c.W, Gate: g, Fault: &f, Rep: rep})
 			}
@@ -487,7 +653,11 @@ func runC02(e *Env) {
 				idx = append(idx, i)
 			}
 		}
-		vk.ParallelDo(len(idx), 16, func(j int) {
+		par := 16
+		if gate == "recvFinalizePair" {
+			par = 5 // the rendezvous spins: leave processors for the transfers
+		}
+		vk.ParallelDo(len(idx), par, func(j int) {
 			c := cases[idx[j]]
 			cls := c02FaultClass(c)
 			smu.Lock()
